@@ -197,6 +197,21 @@ func cmdDump(args []string) {
 			}
 		}
 	}
+	for _, u := range p.theoremUnits() {
+		if *fnPat != "" && !strings.Contains("theorem "+u.thName, *fnPat) {
+			continue
+		}
+		fmt.Printf("== theorem %s", u.thName)
+		if u.unsupported != "" {
+			fmt.Printf("  UNSUPPORTED: %s", u.unsupported)
+		}
+		fmt.Println()
+		for _, o := range u.obligs {
+			if *prop == "" || hasProp(o.Props, *prop) {
+				obs = append(obs, o)
+			}
+		}
+	}
 	for _, k := range p.unboundContracts() {
 		fmt.Println("UNBOUND contract:", k)
 	}
